@@ -43,9 +43,9 @@ theorem sampled_index_spec (fuel : Nat) (p off si : α) (m : PositionMatch)
     (sampled_rel fuel p off si m hx hx0 hsi hfp hfo hfuel hq)
 
 /-- set and data-frame dimensions: integer coordinates clipped by the label / row count -/
-theorem count_index_spec [LawfulRounding α] (p : α) (count : Nat) (m : PositionMatch) :
+theorem count_index_spec [LawfulRounding α] (p : α) (count : Nat) (m : PositionMatch) (hp : p < ofNat indexLimit) :
     IsIndex (countAxis count) m p (getCountIndex p count m) :=
-  count_index_spec' p count m
+  count_index_spec' p count m hp
 
 /-- the rule designates at most one answer, so the kernels return *the* index of the rule -/
 theorem index_unique (a : Axis α) (hm : a.StrictMono) (m : PositionMatch) (p : α) (r r' : Option Nat)
@@ -87,9 +87,10 @@ theorem range_pair_spec (ticks : List α) (hs : Sorted ticks) (s e : α) (rm : R
   rw [rangePair_eq_pairOf]
   exact pairOf_spec _ _ (fun p m => range_index_spec ticks hs p m) s e rm
 
-theorem count_pair_spec [LawfulRounding α] (count : Nat) (s e : α) (rm : RangeMatch) :
+theorem count_pair_spec [LawfulRounding α] (count : Nat) (s e : α) (rm : RangeMatch)
+    (hs : s < ofNat indexLimit) (he : e < ofNat indexLimit) :
     IsPair (countAxis count) rm s e (countPair count s e rm) :=
-  pairOf_spec _ _ (fun p m => count_index_spec p count m) s e rm
+  pairOf_spec_at _ _ s e rm (count_index_spec s count .greaterOrEqual hs) (count_index_spec e count rm.endMatch he)
 
 theorem sampled_pair_spec (fuel : Nat) (off si : α) (s e : α) (rm : RangeMatch)
     (hx : StrictMonoN (posAt si off)) (hx0 : posAt si off 0 = off)
